@@ -215,6 +215,20 @@ m("M04f_keys_display", ["C04"], [("pdf/src/primitive.rs", "            serialize
 m("M04g_cr_raw", ["C04"], [("pdf/src/primitive.rs", "                    b'\\r' => {\n                        write!(out, r\"\\r\")?;\n                        continue;\n                    }\n", "")], expect="C04-ESC-str", note="string containing CR is read back with LF")
 m("M04h_ref_no_space", ["C04"], [("pdf/src/primitive.rs", 'Primitive::Reference(r) =>  write!(out, "{} {} R", r.id, r.gen)?,', 'Primitive::Reference(r) =>  write!(out, "{} {}R", r.id, r.gen)?,')], expect="C04-ADJ", note="`1 0R`")
 
+# ------------------------------------------------------------------ C08
+m("M08a_tf_order", ["C08"], [("pdf/src/content.rs", '"Tf"  => push(Op::TextFont { name: name(&mut args)?, size: number(&mut args)? }),', '"Tf"  => push(Op::TextFont { size: number(&mut args)?, name: name(&mut args)? }),')], expect="C08-TABLE")
+m("M08b_s_fill", ["C08"], [("pdf/src/content.rs", "                Some(Op::Stroke) => {\n                    writeln!(f, \"s\")?;", "                Some(Op::Fill { winding: Winding::NonZero }) => {\n                    writeln!(f, \"s\")?;")], expect="C08-SIB")
+m("M08c_l_no_last", ["C08"], [("pdf/src/content.rs", "                push(Op::LineTo { p });\n                self.last = p;", "                push(Op::LineTo { p });")], expect="C08-G1", note="m l v sequence: v expands with the point before the line")
+m("M08d_no_drain", ["C08"], [("pdf/src/content.rs", "match self.add(operator, buffer.drain(..), &mut lexer, resolve) {", "match self.add(operator, buffer.clone().into_iter(), &mut lexer, resolve) {")], expect="C08-G2", note="operands leak to the next operator")
+m("M08e_td_x", ["C08"], [("pdf/src/content.rs", "[Op::MoveTextPosition { translation }, ..] if leading == -translation.y => {", "[Op::MoveTextPosition { translation }, ..] if leading == -translation.x => {")], expect="C08-SIB")
+m("M08f_quote_order", ["C08"], [("pdf/src/content.rs", '                push(Op::WordSpacing { word_space: number(&mut args)? });\n                push(Op::CharSpacing { char_space: number(&mut args)? });\n                push(Op::TextNewline);',
+   '                push(Op::CharSpacing { char_space: number(&mut args)? });\n                push(Op::WordSpacing { word_space: number(&mut args)? });\n                push(Op::TextNewline);')], expect="C08", note="aw ac swapped for the \" operator")
+m("M08g_fstar_nonzero", ["C08"], [("pdf/src/content.rs", '"f*"  => push(Op::Fill { winding: EvenOdd }),', '"f*"  => push(Op::Fill { winding: NonZero }),')], expect="C08-TABLE")
+m("M08h_do_no_space", ["C08"], [("pdf/src/content.rs", '                serialize_name(name, f)?;\n                writeln!(f, " Do")?;', '                serialize_name(name, f)?;\n                writeln!(f, "Do")?;')], expect="C08-ADJ", note="/Im1Do")
+m("M08i_rg_wrong_kw", ["C08"], [("pdf/src/content.rs", 'Op::FillColor { color: Color::Rgb(rgb) } => writeln!(f, "{} rg", rgb)?,', 'Op::FillColor { color: Color::Rgb(rgb) } => writeln!(f, "{} RG", rgb)?,')], expect="C08-SIB", note="fill colour written as stroke colour")
+m("M08j_linecap", ["C08"], [("pdf/src/content.rs", "                    1 => LineCap::Round,\n                    2 => LineCap::Square,", "                    2 => LineCap::Round,\n                    1 => LineCap::Square,")], expect="C08-TABLE")
+m("M08k_y_c2", ["C08"], [("pdf/src/content.rs", "push(Op::CurveTo { c1, c2: p, p });", "push(Op::CurveTo { c1, c2: c1, p });")], expect="C08-TABLE", note="y's second control point")
+
 
 def gen_patch(mu):
     files = {}
